@@ -75,7 +75,9 @@ class Adapter:
         return ng.make_input(self.spec, seed, batch=2)
 
 
-def snapshot(ad: Adapter, m):
+def snapshot(ad: Adapter, m, rev=False):
+    """rev: read the metrics in the opposite order ('in any order' - a value must not depend on
+    which metric was read first)."""
     import torch
     snap = {}
     try:
@@ -89,7 +91,7 @@ def snapshot(ad: Adapter, m):
     costs = {}
     grads = {}
     params = [p for p in m.nas_parameters() if p.requires_grad]
-    for name in ad.specs:
+    for name in (list(ad.specs)[::-1] if rev else list(ad.specs)):
         c = m.get_cost(name)
         costs[name] = float(c)
         if c.requires_grad and params:
@@ -137,6 +139,10 @@ def snap_diff(a, b):
     return None
 
 
+def _reraise(e):
+    raise e
+
+
 def do_mutator(ad: Adapter, m, op, k):
     """Applies a mutator identically to A and B (RNG reseeded per step)."""
     import torch
@@ -176,8 +182,10 @@ def run_history(ad: Adapter, ops, res: Result):
     import torch
     A, x0 = ad.build()
     B, _ = ad.build()
-    # one forward so that sampled coefficients / ranges exist
+    # one forward so that sampled coefficients / ranges exist; in training mode for half of the
+    # models (the usual situation: export / summary / cost are called from inside a training loop)
     for m in (A, B):
+        m.train(bool(ad.case.get('init_train', False)))
         torch.manual_seed(999)
         ng.call(m, ad.probe(seed=9))
     base = snapshot(ad, A)
@@ -194,13 +202,22 @@ def run_history(ad: Adapter, ops, res: Result):
             continue
         n_obs += 1
         if op in ('export', 'export_nobn'):
-            if op == 'export_nobn' and ad.method != 'pit':
-                e = must(res, 'export', A.export)
-            elif op == 'export_nobn':
-                e = must(res, 'export', A.export, add_bn=False)
-            else:
-                e = must(res, 'export', A.export)
-            if e is None:
+            kw = {'add_bn': False} if (op == 'export_nobn' and ad.method == 'pit') else {}
+            try:
+                e = A.export(**kw)
+            except Exception as ex:  # noqa
+                # whether this architecture CAN be exported is the business of C01/C02/C03/C08;
+                # here it counts only if the observers caused it: the never-observed twin is the
+                # control (a deep copy of it, so that the twin itself stays un-observed)
+                try:
+                    safe_deepcopy(B).export(**kw)
+                    control_ok = True
+                except Exception as ex2:  # noqa
+                    control_ok = type(ex2) is not type(ex)
+                if control_ok:
+                    must(res, 'export', _reraise, ex)
+                else:
+                    res.discarded = 'export-unsupported-for-this-model'
                 return n_obs
             st_e = structure(e)
             with torch.no_grad():
@@ -238,6 +255,7 @@ def run_history(ad: Adapter, ops, res: Result):
                 ad.specs = ad.alt
                 try:
                     C, _ = ad.build()
+                    C.train(bool(ad.case.get('init_train', False)))
                     torch.manual_seed(999)
                     ng.call(C, ad.probe(seed=9))
                     for n, v in swapped.items():
@@ -246,7 +264,7 @@ def run_history(ad: Adapter, ops, res: Result):
                                     got=float(v), want=float(C.get_cost(n)))
                 finally:
                     ad.specs = main
-        now = snapshot(ad, A)
+        now = snapshot(ad, A, rev=True)
         d = snap_diff(base, now)
         if d is not None:
             res.bad(f"{op}-is-not-an-observer:{d[0]}", after_ops=ops[:k + 1], **d[1])
@@ -274,7 +292,8 @@ def pit_cases(draw):
     return {'method': 'pit', 'spec': spec, 'masks': draw(mk.pit_masks(spec, pu.fixed_ids(spec))),
             'full_cost': draw(st.booleans()), 'fold_bn': draw(st.booleans()),
             'discrete': draw(st.booleans()), 'wseed': draw(st.integers(0, 20)),
-            'vseed': draw(st.integers(0, 20)), 'ops': draw(ops_strategy())}
+            'vseed': draw(st.integers(0, 20)), 'ops': draw(ops_strategy()),
+            'init_train': draw(st.booleans())}
 
 
 @st.composite
@@ -282,7 +301,8 @@ def sn_cases(draw):
     spec = draw(su.sn_specs(max_sn=2, functional_tail=True, max_branches=5))
     return {'method': 'supernet', 'spec': spec, 'winners': draw(su.winners_for(spec)),
             'full_cost': draw(st.booleans()), 'wseed': draw(st.integers(0, 20)),
-            'vseed': draw(st.integers(0, 20)), 'ops': draw(ops_strategy())}
+            'vseed': draw(st.integers(0, 20)), 'ops': draw(ops_strategy()),
+            'init_train': draw(st.booleans())}
 
 
 @st.composite
@@ -293,7 +313,8 @@ def mps_cases(draw):
     return {'method': 'mps', 'spec': spec, 'per_channel': draw(st.booleans()),
             'w_prec': draw(mu.precisions), 'a_prec': draw(mu.precisions),
             'full_cost': draw(st.booleans()), 'wseed': draw(st.integers(0, 20)),
-            'vseed': draw(st.integers(0, 20)), 'ops': draw(ops_strategy())}
+            'vseed': draw(st.integers(0, 20)), 'ops': draw(ops_strategy()),
+            'init_train': draw(st.booleans())}
 
 
 def oracle(case) -> Result:
@@ -309,7 +330,7 @@ def oracle(case) -> Result:
 
 # -- exhaustive short histories on one fixed model per method -----------------------------
 FIXED = {
-    'pit': {'method': 'pit', 'full_cost': True, 'fold_bn': False, 'discrete': False, 'wseed': 1,
+    'pit': {'method': 'pit', 'init_train': True, 'full_cost': True, 'fold_bn': False, 'discrete': False, 'wseed': 1,
             'vseed': 1,
             'spec': {'family': '1d', 'inputs': [[2, 10]], 'out': 'n4', 'nodes': [
                 {'id': 'n0', 'op': 'conv1d', 'in': ['x'], 'k': 4, 'dil': 1, 'stride': 1,
@@ -333,7 +354,7 @@ FIXED = {
                   {'id': 'n3', 'op': 'flatten', 'in': ['n2'], 'variant': 'mod'},
                   {'id': 'n4', 'op': 'linear', 'in': ['n3'], 'cout': 3, 'bias': True, 'bn': False}]},
               'masks': {'g': {'n0': [False, True, False, True]}, 't': {}}},
-    'supernet': {'method': 'supernet', 'full_cost': True, 'wseed': 1, 'vseed': 1,
+    'supernet': {'method': 'supernet', 'init_train': True, 'full_cost': True, 'wseed': 1, 'vseed': 1,
                  'winners': {'n1': 1},
                  'spec': {'family': '2d', 'inputs': [[2, 5, 5]], 'out': 'n2', 'nodes': [
                      {'id': 'n0', 'op': 'conv2d', 'in': ['x'], 'k': 3, 'p': 1, 'stride': 1,
@@ -344,7 +365,7 @@ FIXED = {
                                                   {'kind': 'identity'}]},
                      {'id': 'n2', 'op': 'conv2d', 'in': ['n1'], 'k': 1, 'p': 0, 'stride': 1,
                       'cout': 2, 'bias': True, 'bn': False, 'groups': 1}]}},
-    'mps': {'method': 'mps', 'full_cost': False, 'wseed': 1, 'vseed': 1, 'per_channel': True,
+    'mps': {'method': 'mps', 'init_train': True, 'full_cost': False, 'wseed': 1, 'vseed': 1, 'per_channel': True,
             'w_prec': [2, 8, 0], 'a_prec': [4, 8],
             'spec': {'family': '2d', 'inputs': [[2, 5, 5]], 'out': 'n3', 'nodes': [
                 {'id': 'n0', 'op': 'conv2d', 'in': ['x'], 'k': 3, 'p': 1, 'stride': 1, 'cout': 4,
